@@ -49,6 +49,7 @@ func ProfileFor(prop string) *Profile {
 		w["idxtype"], w["bad"] = 0.1, 0.1
 	case "C08":
 		p.MinIdx, p.MaxIdx = 0, 3
+		p.MistypedAttrs = true
 		w["put"], w["update"], w["delete"], w["get"] = 3, 3, 2, 0.5
 		w["bad"], w["idxtype"], w["keyupdate"], w["batchbad"], w["batchw"] = 4, 2.5, 0.5, 1, 1
 		w["batchpartial"], w["keyextra"] = 1.5, 0.4
